@@ -278,6 +278,9 @@ def fname_of(B, prefix, fn):
     return c[0]
 
 
+EXTRA = None      # optional hook(ex, env, tracker): further stubs of a reusing check (C21: closure scope objects)
+
+
 def check_kernel(fn):
     out = []
     t0 = time.time()
@@ -285,6 +288,8 @@ def check_kernel(fn):
         ex, env = _B.new_exec(unroll=UNROLL)
         tr = Tracker(ex, env)
         tr.install()
+        if EXTRA:
+            EXTRA(ex, env, tr)
         for g in ('_Py_NoneStruct', '_Py_TrueStruct', '_Py_FalseStruct'):
             p = ex.global_ptr(g)
             r = ex.regions[next(iter(p.regions))]
